@@ -59,3 +59,418 @@ Proof.
   intros T w w' HX Q. destruct (qrel_facts _ _ _ HX Q) as (_ & Sa & _ & _).
   split; [apply (sv_fs _ _ Sa)|]. split; [apply (sv_new _ _ Sa)|]. split; [apply (sv_old _ _ Sa)|apply (sv_cf _ _ Sa)].
 Qed.
+
+(* ------------------------------------------------------------------ small facts *)
+Lemma created_file_In : forall c y, cache_created_file c y = true -> In y (cache_created_files c).
+Proof.
+  intros c y. unfold cache_created_file, cache_get_file, cache_created_files.
+  induction (c_files c) as [|[q o] l IH]; cbn [files_get flat_map fst snd]; [discriminate|].
+  destruct (path_eqb q y) eqn:E.
+  - apply path_eqb_eq in E. subst q. destruct o as [o|]; [|discriminate]. intro H.
+    destruct (op_raised o); [discriminate|]. left. reflexivity.
+  - intro H. apply in_or_app. right. apply IH. exact H.
+Qed.
+
+Lemma suffix_dec' : forall p a : path, suffix p a \/ ~ suffix p a.
+Proof.
+  intros p a. induction a as [|m q IH].
+  - destruct p; [left; apply suffix_refl|right; intro H; apply suffix_nil in H; discriminate].
+  - destruct (list_eq_dec string_dec p (m :: q)) as [->|Hne]; [left; apply suffix_refl|].
+    destruct IH as [H|H]; [left; apply suffix_cons; exact H|right].
+    intro K. apply suffix_inv in K. destruct K; [congruence|contradiction].
+Qed.
+
+Lemma wf_below_absent : forall fs p a, fs_wf fs -> lookup fs p = None -> suffix p a -> lookup fs a = None.
+Proof.
+  intros fs p a Hwf Hp [l ->]. destruct l as [|m l]; [exact Hp|].
+  destruct (lookup fs ((m :: l) ++ p)) as [x|] eqn:E; [|reflexivity].
+  pose proof (Hwf _ _ E) as K. cbn [app dirname tl] in K.
+  rewrite (wf_suffix_dir fs (l ++ p) p Hwf K) in Hp; [discriminate|]. exists l. reflexivity.
+Qed.
+
+Lemma dead_below_invisible : forall w p a, fs_wf (w_fs w) -> dead w p = true -> suffix p a -> visible w a = false.
+Proof.
+  intros w p a Hwf Hd Hs. destruct (visible w a) eqn:E; [|reflexivity].
+  rewrite (visible_alive_up w a p Hwf E Hs) in Hd. discriminate.
+Qed.
+
+Lemma suffix_split : forall p a : path, suffix p a -> a = p \/ psuffix p a.
+Proof. intros p a [l ->]. destruct l as [|m l]; [left; reflexivity|right; exists m, l; reflexivity]. Qed.
+
+(* ------------------------------------------------------------------ _make_room on a dead directory *)
+(* the view does not change: everything at or below the directory was invisible and is absent
+   afterwards *)
+Lemma room_view : forall T p w w1, XInv T w -> XInv T w1 -> rrel (below_eq p) w w1 ->
+  dead w p = true -> lookup (w_fs w1) p = None ->
+  forall a, lookup (view_fs w1) a = lookup (view_fs w) a.
+Proof.
+  intros T p w w1 HX HX1 R Hd Hg a. destruct a as [|m q]; [reflexivity|].
+  rewrite !lookup_view by discriminate.
+  destruct (suffix_dec' p (m :: q)) as [Hs|Hs].
+  - rewrite (dead_below_invisible w p _ (bi_wf _ (x_binv _ _ HX)) Hd Hs).
+    rewrite (wf_below_absent _ p _ (bi_wf _ (x_binv _ _ HX1)) Hg Hs). destruct (visible w1 (m :: q)); reflexivity.
+  - destruct (rr_same _ _ _ R (m :: q) Hs) as [E1 E2].
+    assert (Ev: visible w1 (m :: q) = visible w (m :: q)).
+    { unfold visible. rewrite E1, E2. unfold hid. rewrite (rr_new _ _ _ R), (rr_old _ _ _ R), (rr_cf _ _ _ R). reflexivity. }
+    rewrite Ev, E1. reflexivity.
+Qed.
+
+Lemma room_sim : forall st T W w s n d w1 r,
+  Sim4c T W w s -> (forall y, In y st -> inprog w y) -> (forall y, In y st -> isdir (w_fs w) y = false) ->
+  (forall a, In a (cache_created_files (w_old w)) -> ~ psuffix (n :: d) a) ->
+  isdir (w_fs w) (n :: d) = true -> dead w (n :: d) = true ->
+  make_room room_fuel (n :: d) w = (w1, r) ->
+  r = inl tt /\ Sim4c T W w1 s /\ lookup (w_fs w1) (n :: d) = None /\
+  w_new w1 = w_new w /\ w_old w1 = w_old w /\ w_cachefile w1 = w_cachefile w /\
+  (forall y, In y st -> lookup (w_fs w1) y = lookup (w_fs w) y).
+Proof.
+  intros st T W w s n d w1 r [HP HL] HCp HCd Hbelow Hdir Hdead H.
+  pose proof (s4_rinv _ _ _ _ HP) as HR2. pose proof (RInv2_R' _ _ HR2) as HR. pose proof HR as (HX & HPI & HF).
+  pose proof (RInv2_maxlen _ _ HR2) as Hml.
+  destruct (make_room_clear T (n :: d) w w1 r HR) as (-> & Hcnt & Hcre & Hlog); [unfold walk_fuel in Hml; unfold room_fuel; lia|exact Hdir|exact Hdead|exact H|].
+  assert (HRI: RI T (n :: d) w) by (split; [exact HX|split; [exact Hdir|split; [exact Hdead|exact HF]]]).
+  destruct (make_room_ok T _ _ _ _ _ HRI H) as (HX1 & R & Hgone). specialize (Hgone eq_refl).
+  pose proof (RInv_rrel _ _ _ _ HR HX1 R) as HR1.
+  pose proof (make_room_gl walk_fuel _ _ _ _ _ H) as G.
+  pose proof (room_view T _ _ _ HX HX1 R Hdead Hgone) as Hview.
+  pose proof (s4_sim _ _ _ _ HP) as HS.
+  split; [reflexivity|]. split; [|split; [exact Hgone|split; [apply (rr_new _ _ _ R)|split; [apply (rr_old _ _ _ R)|split; [apply (rr_cf _ _ _ R)|]]]]].
+  - split.
+    + apply (Sim4pre_transport T W w w1 s HP).
+      * destruct HS as [S1 S2 S3 S4 S5 S6 S7 S8 S9 S10].
+        constructor; rewrite ?(rr_new _ _ _ R), ?(rr_old _ _ _ R), ?(rr_cf _ _ _ R), ?Hlog; try assumption.
+        -- intro y. specialize (S1 y). rewrite (Hview y). exact S1.
+        -- intro y. rewrite (S10 y).
+           destruct (suffix_dec' (n :: d) y) as [Hs|Hs].
+           ++ rewrite (wf_below_absent _ _ _ (bi_wf _ (x_binv _ _ HX1)) Hgone Hs).
+              destruct (suffix_split _ _ Hs) as [->|Hps].
+              ** apply isdir_lookup in Hdir. rewrite Hdir. reflexivity.
+              ** destruct (lookup (w_fs w) y) as [[f|]|]; try reflexivity.
+                 destruct (cache_created_file (w_old w) y) eqn:Ec; [|reflexivity].
+                 exfalso. apply (Hbelow y (created_file_In _ _ Ec) Hps).
+           ++ destruct (rr_same _ _ _ R y Hs) as [E1 _]. rewrite E1. reflexivity.
+      * apply (RInv2_step _ _ _ _ HR2 G HR1).
+      * intro x. rewrite Hcre. reflexivity.
+      * apply (rr_cf _ _ _ R).
+      * apply (rr_new _ _ _ R).
+    + intros x Hx. rewrite (rr_new _ _ _ R). apply HL. exact Hx.
+  - intros y Hy. apply (rr_same _ _ _ R). intro Hs. unfold below_eq in Hs.
+    pose proof (HCp y Hy) as Hprog. pose proof (HPI y Hprog) as HinT.
+    destruct (suffix_split _ _ Hs) as [->|Hps].
+    + rewrite (HCd _ Hy) in Hdir. discriminate.
+    + pose proof (X_target_parent _ _ _ HX HinT) as Hc.
+      assert (Hs': suffix (n :: d) (dirname y)).
+      { destruct Hps as [m [l ->]]. cbn [app dirname tl]. exists l. reflexivity. }
+      pose proof (counts_up_suffix w _ _ (x_binv _ _ HX) Hc Hs') as Hcp.
+      rewrite (dead_counts _ _ Hcp) in Hdead. discriminate.
+Qed.
+
+(* ------------------------------------------------------------------ _make_dirs against missing_dirs / mkdir_all *)
+Lemma tgtP_parts : forall n d, tgtP (n :: d) -> path_ok d = true /\ List.length d < walk_fuel.
+Proof.
+  intros n d H. pose proof (tgtP_len _ H) as Hl. cbn [List.length] in Hl. split; [|lia].
+  unfold tgtP, tgt_ok in H. apply andb_true_iff in H. destruct H as [H _].
+  cbn [path_ok forallb] in H. apply andb_true_iff in H. apply H.
+Qed.
+
+Lemma kdir_false : forall W w s p, Sim3 W w s -> isdir (w_fs w) p = false -> isdir (k_fs s) p = false.
+Proof.
+  intros W w s p HS H. destruct (isdir (k_fs s) p) eqn:E; [|reflexivity].
+  apply isdir_lookup in E. apply (sim3_dir_disk _ _ _ _ HS) in E. unfold isdir in H. rewrite E in H. discriminate.
+Qed.
+
+Lemma missing_dirs_sim : forall W w s d, Sim3 W w s ->
+  missing_dirs (k_fs s) (k_cachefile s) d = missing_dirs (view_fs w) (w_cachefile w) d.
+Proof.
+  intros W w s d HS. rewrite (s3_cf _ _ _ HS). symmetry. apply missing_dirs_te. eapply trel_te. apply (Sim3_trel _ _ _ HS).
+Qed.
+
+(* no ancestor-or-self of the directory of the target is a target in progress *)
+Lemma no_prog_above : forall st w n d, (forall y, inprog w y -> In y st) ->
+  (forall t, In t st -> ~ psuffix t (n :: d)) ->
+  forall y, suffix y d -> files_get (c_files (w_new w)) y <> Some None.
+Proof.
+  intros st w n d Hprog Hst y Hs Hy. apply (Hst y (Hprog y Hy)). apply psuffix_cons. exact Hs.
+Qed.
+
+Lemma dirs_sim_err : forall st T W w s n d wa e,
+  Sim4c T W w s -> (forall y, inprog w y -> In y st) -> tgt_conds st (w_old w) (n :: d) ->
+  isdir (w_fs w) (n :: d) = false ->
+  make_dirs d w = (wa, inr e) ->
+  setup_fs (k_fs s) (k_cachefile s) (n :: d) = inr e /\ Sim4c T W wa s /\
+  w_fs wa = w_fs w /\ w_new wa = w_new w /\ w_old wa = w_old w.
+Proof.
+  intros st T W w s n d wa e HS4 Hprog (Htg & Hst & _ & _) Hnd H. pose proof HS4 as [HP HL].
+  pose proof (s4_rinv _ _ _ _ HP) as HR2. pose proof (RInv2_R' _ _ HR2) as HR. pose proof (RInv_X _ _ HR) as HX.
+  pose proof (s4_sim _ _ _ _ HP) as HS.
+  destruct (tgtP_parts _ _ Htg) as [Hok Hlen].
+  assert (Hd: dirs_to_make d None w = (wa, inr e)).
+  { apply (make_dirs_noerr d T w wa e HR Hok); [|exact H].
+    intros y Hy _. apply (no_prog_above st w n d Hprog Hst y Hy). }
+  destruct (dirs_to_make_err d T w wa e HX Hok Hd) as (c & -> & Hmiss).
+  pose proof (dirs_to_make_q _ _ _ _ _ Hd) as Q.
+  destruct (qrel_same _ _ _ HX Q) as (F1 & F2 & F3 & _).
+  split; [|split; [apply (Sim4c_qrel _ _ _ _ _ HS4 Q)|auto]].
+  unfold setup_fs. rewrite (kdir_false _ _ _ _ HS Hnd). cbn [dirname tl].
+  rewrite (missing_dirs_sim _ _ _ d HS), Hmiss. reflexivity.
+Qed.
+
+Lemma dirs_sim_ok : forall st T W w s n d wa ds wb locked,
+  Sim4c T W w s -> (forall y, inprog w y -> In y st) -> tgt_conds st (w_old w) (n :: d) ->
+  cache_has_file (w_new w) (n :: d) = false ->
+  isdir (w_fs w) (n :: d) = false ->
+  make_dirs d w = (wa, inl ds) ->
+  m_bd_started (n :: d) ds wa = (wb, inl locked) ->
+  exists fs1, setup_fs (k_fs s) (k_cachefile s) (n :: d) = inl (fs1, ds) /\
+    SimSetup T W (n :: d) wb (core_s0 s (n :: d) fs1 ds) /\ w_new wb = w_new w /\ w_old wb = w_old w /\
+    (forall y, In y st -> lookup (w_fs wb) y = lookup (w_fs w) y).
+Proof.
+  intros st T W w s n d wa ds wb locked HS4 Hprog (Htg & Hst & _ & Hold) Hunc Hnd Hmk Hstd.
+  pose proof HS4 as [HP HL].
+  pose proof (s4_rinv _ _ _ _ HP) as HR2. pose proof (RInv2_R' _ _ HR2) as HR. pose proof HR as (HX & HPI & HF).
+  pose proof (s4_sim _ _ _ _ HP) as HS. pose proof (x_binv _ _ HX) as HB.
+  destruct (tgtP_parts _ _ Htg) as [Hok Hlen].
+  (* the mechanism side *)
+  destruct (make_dirs_started_XInv T w n d wa ds wb locked HX HPI Hnd Hmk Hstd) as (HXb & HPb & Nb & Ob & Cb & Fsb).
+  (* inside make_dirs *)
+  pose proof Hmk as Hmk0. unfold make_dirs in Hmk0. apply bind_inv in Hmk0.
+  destruct Hmk0 as [[w0 [ds0 [Eds H]]]|[e [_ H]]]; [|discriminate].
+  apply bind_inv in H. destruct H as [[wx [u [Eloop H]]]|[e [_ H]]]; [|discriminate].
+  inversion H; subst wx ds0. clear H.
+  destruct (dirs_to_make_spec d T w w0 ds HX Eds) as [Q I O].
+  destruct (qrel_facts _ _ _ HX Q) as (HX0 & Sa & _ & _).
+  destruct (make_dirs_loop_res _ _ _ _ _ Eloop) as [((C1 & C2 & C3 & C4) & Sw2 & Sw3) M].
+  assert (Ewb: wb = set_bd (fst (bd_started (w_bd wa) (n :: d) ds)) wa).
+  { unfold m_bd_started in Hstd. destruct (bd_started (w_bd wa) (n :: d) ds) as [b' l]. inversion Hstd; reflexivity. }
+  assert (Hnofile: forall y, In y ds -> isfile (w_fs wb) y = false).
+  { intros y Hy. rewrite Ewb. cbn [w_fs set_bd]. destruct (I y Hy) as (A & B & C & D & E).
+    destruct (M y Hy) as [K|(K1 & K2 & K3)]; [unfold isfile; rewrite K; reflexivity|].
+    destruct (isfile (w_fs wa) y) eqn:Ef; [|reflexivity]. exfalso.
+    unfold isfile in Ef. rewrite K1 in Ef. fold (isfile (w_fs w0) y) in Ef.
+    pose proof (K3 Ef) as Hnc. rewrite (sv_old _ _ Sa) in Hnc. rewrite (sv_fs _ _ Sa) in Ef.
+    unfold vfile in D. rewrite Ef in D. cbn [andb] in D. apply negb_false_iff in D.
+    unfold hid in D. apply path_eqb_neq in E. rewrite E in D. cbn [orb] in D.
+    unfold cache_has_file, cache_get_file in D.
+    destruct (files_get (c_files (w_new w)) y) as [[o|]|] eqn:Eg; [discriminate| |congruence].
+    apply (no_prog_above st w n d Hprog Hst y A Eg). }
+  destruct (view_setup T w n d wa ds wb locked HX HPI Hnd Hok Hmk Hstd Hnofile) as (Hmiss & fsv & Mv & Lv).
+  destruct (missing_made _ _ _ _ Hok Hmiss) as (fsv' & Mv' & Lv' & _ & _).
+  rewrite Mv in Mv'. inversion Mv'; subst fsv'. clear Mv'.
+  assert (Hmk_k: missing_dirs (k_fs s) (k_cachefile s) d = inl ds) by (rewrite (missing_dirs_sim _ _ _ d HS); exact Hmiss).
+  destruct (missing_made _ _ _ _ Hok Hmk_k) as (fs1 & M1 & L1 & D1 & Sfx).
+  exists fs1.
+  assert (Hview_none: forall y, In y ds -> lookup (view_fs w) y = None).
+  { intros y Hy. destruct (I y Hy) as (_ & _ & C & D & _). apply (view_kind_none w y HB C D). }
+  assert (Hk_nodir: forall y, In y ds -> lookup (k_fs s) y <> Some NDir).
+  { intros y Hy K. apply (trel_dir_r _ _ _ _ (Sim3_trel _ _ _ HS)) in K. rewrite (Hview_none y Hy) in K. discriminate. }
+  assert (Hnosuf: forall y, In y st -> ~ suffix y d).
+  { intros y Hy Hs. apply (Hst y Hy). apply psuffix_cons. exact Hs. }
+  split; [|split; [|split; [exact Nb|split; [exact Ob|]]]].
+  - unfold setup_fs. rewrite (kdir_false _ _ _ _ HS Hnd). cbn [dirname tl]. rewrite Hmk_k, M1. reflexivity.
+  - assert (Hfaults: w_faults wb = []).
+    { pose proof (make_dirs_quiet d _ _ _ Hmk) as [_ Q1]. rewrite Ewb. cbn [w_faults set_bd]. congruence. }
+    assert (G: gl walk_fuel w wb).
+    { eapply gl_trans; [apply (make_dirs_gl walk_fuel _ _ _ _ Hmk Hlen)|]. apply svb_gl. apply (m_bd_started_svb _ _ _ _ _ Hstd). }
+    assert (HRb2: RInv2' ((n :: d) :: T) wb).
+    { apply (RInv2_step _ _ _ _ HR2 G). split; [exact HXb|split; [exact HPb|exact Hfaults]]. }
+    assert (Hlog: vis_log (w_log wb) = vis_log (w_log w)).
+    { pose proof (make_dirs_vq d _ _ _ Hmk) as V. cbn in V. unfold vq in V. rewrite Ewb. cbn [w_log set_bd]. exact V. }
+    assert (HnotinT: ~ In (n :: d) T).
+    { intro K. rewrite (HL _ K) in Hunc. discriminate. }
+    assert (Hnd_b: isdir (w_fs wb) (n :: d) = false).
+    { unfold isdir. rewrite Fsb; [exact Hnd|]. intro Hs. apply suffix_length in Hs. cbn [List.length] in Hs. lia. }
+    split; [|split; [|split; [rewrite Nb; exact Hunc|exact Hnd_b]]].
+    2:{ intros x Hx. rewrite Nb. apply HL. exact Hx. }
+    destruct HP as [P1 P2 P5 P6 P7 P8 P9 P10 P11 P12 P13 P14].
+    constructor; cbn [core_s0 ks_with k_fs k_stale k_claimedF k_claimedS k_need k_made k_clock k_nextid k_log k_cachefile k_old k_vers k_newF k_newS].
+    + (* Sim3 *)
+      destruct HS as [S1 S2 S3 S4 S5 S6 S7 S8 S9 S10].
+      constructor; cbn [core_s0 ks_with k_fs k_stale k_claimedF k_claimedS k_need k_made k_clock k_nextid k_log k_cachefile k_old k_vers k_newF k_newS];
+        rewrite ?Nb, ?Ob, ?Cb, ?Hlog; try assumption.
+      * (* the tree *)
+        apply (trel_pointwise W (view_fs w) (k_fs s) (view_fs wb) fs1 (fun x => if mem_path x ds then Some (Some NDir) else None)).
+        -- exact S1.
+        -- intro x. rewrite (Lv x), (Lv' x). destruct (mem_path x ds); reflexivity.
+        -- intro x. rewrite (L1 x). destruct (mem_path x ds); reflexivity.
+      * (* the stale store *)
+        intro y. rewrite (S10 y).
+        destruct (cache_created_file (w_old w) y) eqn:Ec.
+        -- rewrite Fsb; [reflexivity|]. intro Hs. apply (Hold y (created_file_In _ _ Ec)). apply psuffix_cons. exact Hs.
+        -- cbn [andb]. destruct (lookup (w_fs w) y) as [[f|]|]; destruct (lookup (w_fs wb) y) as [[g|]|]; reflexivity.
+    + exact HRb2.
+    + constructor; assumption.
+    + intro x. cbn [mem_path]. rewrite orb_true_iff, P6. cbn [In]. rewrite path_eqb_eq. reflexivity.
+    + (* k_made ~ bd_created *)
+      intro x. rewrite mem_path_app, P7. rewrite Ewb. cbn [w_bd set_bd]. rewrite C1.
+      rewrite (bd_started_created (w_bd w0) n d ds (x_pos _ _ HX0)).
+      * rewrite (sv_created _ _ Sa). reflexivity.
+      * intros y Hy. destruct (I y Hy) as (A & _). split; [exact A|].
+        destruct (in_counts (w_bd w0) y) eqn:Ec; [|reflexivity]. exfalso.
+        assert (Ec': in_counts (w_bd w) y = true) by (unfold in_counts in *; rewrite <- (sv_counts _ _ Sa); exact Ec).
+        destruct (reserved_has_live T w y HX Ec') as (t & Ht & Hps).
+        pose proof (P9 t Ht) as Kd.
+        assert (Hs: suffix y (dirname t)) by (destruct Hps as [m [l ->]]; exists l; reflexivity).
+        apply (Hk_nodir y Hy). apply (wf_suffix_dir _ _ _ P8 Kd Hs).
+      * intros y x0 Hy Hyx Hxd. destruct (in_dec (list_eq_dec string_dec) x0 ds) as [Hin|Hin]; [exact Hin|]. exfalso.
+        destruct (O x0 Hxd Hin) as [_ Vx]. destruct (I y Hy) as (_ & _ & C & _).
+        pose proof (vdir_visible _ _ Vx) as Vv.
+        unfold vdir in C. rewrite (visible_alive_up w x0 y (bi_wf _ HB) Vv Hyx) in C.
+        unfold vdir in Vx. apply andb_true_iff in Vx. destruct Vx as [Vi _]. apply isdir_lookup in Vi.
+        unfold isdir in C. rewrite (wf_suffix_dir _ _ _ (bi_wf _ HB) Vi Hyx) in C. discriminate.
+    + (* Core's tree is a tree *)
+      destruct (setup_dirs _ _ _ _ _ P8 Hmk_k M1) as (_ & W1 & _). exact W1.
+    + intros t [<-|Ht]; [exact D1|]. rewrite (L1 (dirname t)). rewrite (P9 t Ht). destruct (mem_path (dirname t) ds); reflexivity.
+    + intros x Hx. rewrite Cb in Hx. rewrite (L1 x), (P10 x Hx). destruct (mem_path x ds); reflexivity.
+    + intros x Hx Hs. rewrite Cb in Hs. apply in_app_or in Hx. destruct Hx as [Hx|Hx]; [apply (P11 x Hx Hs)|].
+      apply (Hk_nodir x Hx). apply (P10 x Hs).
+    + intros q v Hin. rewrite Nb in Hin. eapply P12; exact Hin.
+    + rewrite Nb. exact P13.
+    + exact P14.
+  - intros y Hy. apply Fsb. apply Hnosuf. exact Hy.
+Qed.
+
+(* ------------------------------------------------------------------ _prepare_file_creation against setup_fs *)
+Definition frame_st (st : list path) (w w' : world) : Prop :=
+  forall y, In y st -> lookup (w_fs w') y = lookup (w_fs w) y.
+
+Lemma prepare_sim : forall st tg pend T W w s p wa r,
+  Sim4c T W w s -> Ctx4 st tg pend w -> tgt_conds st (w_old w) p ->
+  cache_has_file (w_new w) p = false ->
+  prepare_file_creation p w = (wa, r) ->
+  match r with
+  | inr e => setup_fs (k_fs s) (k_cachefile s) p = inr e /\ Sim4c T W wa s /\
+             w_new wa = w_new w /\ w_old wa = w_old w /\ frame_st st w wa
+  | inl ds => forall wb locked, m_bd_started p ds wa = (wb, inl locked) ->
+      exists fs1, setup_fs (k_fs s) (k_cachefile s) p = inl (fs1, ds) /\
+        SimSetup T W p wb (core_s0 s p fs1 ds) /\ w_new wb = w_new w /\ w_old wb = w_old w /\ frame_st st w wb
+  end.
+Proof.
+  intros st tg pend T W w s p wa r HS4 HC Hcond Hunc H. pose proof HS4 as [HP HL].
+  pose proof (s4_rinv _ _ _ _ HP) as HR2. pose proof (RInv2_R' _ _ HR2) as HR. pose proof (RInv_X _ _ HR) as HX.
+  pose proof (s4_sim _ _ _ _ HP) as HS. pose proof (x_binv _ _ HX) as HB.
+  unfold prepare_file_creation in H. apply bind_inv in H. unfold get in H.
+  destruct H as [[wx [w0 [E0 H]]]|[e' [E0 _]]]; [|discriminate]. inversion E0; subst wx w0. clear E0.
+  destruct p as [|n d].
+  { (* the root: always a visible directory *)
+    cbn [isdir lookup] in H. apply bind_inv in H.
+    assert (Hroot: forall wc rc,
+              (vd <- m_is_dir [] None ;; (if vd then raise (XOS XIsADirectory) else make_room room_fuel [])) w = (wc, rc) ->
+              rc = inr (XOS XIsADirectory) /\ qrel w wc).
+    { intros wc rc Hc. apply bind_inv in Hc. destruct Hc as [[wd [vd [Ed Hc]]]|[e'' [Ed _]]].
+      - destruct (m_is_dir_inl _ _ _ _ _ HX Ed) as [Evd _]. rewrite (vdir_root _ HB) in Evd. subst vd.
+        inversion Hc; subst. split; [reflexivity|apply (m_is_dir_q _ _ _ _ _ Ed)].
+      - exfalso. apply (m_is_dir_noerr w [] wc e'' HB eq_refl Ed). }
+    destruct H as [[wx [u2 [E4 _]]]|[e' [E4 Er]]].
+    - destruct (Hroot _ _ E4) as [K _]. discriminate.
+    - destruct (Hroot _ _ E4) as [K Q]. inversion K; subst e'. subst r.
+      destruct (qrel_same _ _ _ HX Q) as (F1 & F2 & F3 & _).
+      split; [reflexivity|]. split; [apply (Sim4c_qrel _ _ _ _ _ HS4 Q)|].
+      split; [exact F2|]. split; [exact F3|]. intros y _. rewrite F1. reflexivity. }
+  cbn [dirname tl] in H.
+  pose proof Hcond as (Htg & Hst & Hbelow & Habove).
+  assert (Hokp: path_ok (n :: d) = true).
+  { unfold tgtP, tgt_ok in Htg. apply andb_true_iff in Htg. apply Htg. }
+  (* the common end: make_dirs from a world in which the target is not a directory *)
+  assert (Hend: forall wpre, Sim4c T W wpre s -> w_new wpre = w_new w -> w_old wpre = w_old w -> frame_st st w wpre ->
+            isdir (w_fs wpre) (n :: d) = false -> make_dirs d wpre = (wa, r) ->
+            match r with
+            | inr e => setup_fs (k_fs s) (k_cachefile s) (n :: d) = inr e /\ Sim4c T W wa s /\
+                       w_new wa = w_new w /\ w_old wa = w_old w /\ frame_st st w wa
+            | inl ds => forall wb locked, m_bd_started (n :: d) ds wa = (wb, inl locked) ->
+                exists fs1, setup_fs (k_fs s) (k_cachefile s) (n :: d) = inl (fs1, ds) /\
+                  SimSetup T W (n :: d) wb (core_s0 s (n :: d) fs1 ds) /\ w_new wb = w_new w /\ w_old wb = w_old w /\
+                  frame_st st w wb
+            end).
+  { intros wpre HSp En Eo Hfr Hnd Hmk.
+    assert (Hprog: forall y, inprog wpre y -> In y st).
+    { intros y Hy. apply (c4_prog _ _ _ _ HC). unfold inprog in *. rewrite <- En. exact Hy. }
+    assert (Hcond': tgt_conds st (w_old wpre) (n :: d)) by (rewrite Eo; exact Hcond).
+    destruct r as [ds|e].
+    - intros wb locked Hstd.
+      destruct (dirs_sim_ok st T W wpre s n d wa ds wb locked HSp Hprog Hcond') as (fs1 & A1 & A2 & A3 & A4 & A5);
+        [rewrite En; exact Hunc|exact Hnd|exact Hmk|exact Hstd|].
+      exists fs1. split; [exact A1|]. split; [exact A2|]. split; [congruence|]. split; [congruence|].
+      intros y Hy. rewrite (A5 y Hy). apply Hfr. exact Hy.
+    - destruct (dirs_sim_err st T W wpre s n d wa e HSp Hprog Hcond' Hnd Hmk) as (A1 & A2 & A3 & A4 & A5).
+      split; [exact A1|]. split; [exact A2|]. split; [congruence|]. split; [congruence|].
+      intros y Hy. rewrite A3. apply Hfr. exact Hy. }
+  destruct (isdir (w_fs w) (n :: d)) eqn:Ei.
+  - apply bind_inv in H.
+    assert (Hfirst: forall wc rc,
+              (vd <- m_is_dir (n :: d) None ;; (if vd then raise (XOS XIsADirectory) else make_room room_fuel (n :: d))) w = (wc, rc) ->
+              (rc = inr (XOS XIsADirectory) /\ qrel w wc /\ isdir (k_fs s) (n :: d) = true) \/
+              (rc = inl tt /\ Sim4c T W wc s /\ lookup (w_fs wc) (n :: d) = None /\
+               w_new wc = w_new w /\ w_old wc = w_old w /\ frame_st st w wc)).
+    { intros wc rc Hc. apply bind_inv in Hc. destruct Hc as [[wd [vd [Ed Hc]]]|[e'' [Ed _]]].
+      2:{ exfalso. apply (m_is_dir_noerr w (n :: d) wc e'' HB Hokp Ed). }
+      pose proof (m_is_dir_q _ _ _ _ _ Ed) as Q. destruct (m_is_dir_inl _ _ _ _ _ HX Ed) as [Evd _].
+      destruct vd.
+      - inversion Hc; subst. left. split; [reflexivity|]. split; [exact Q|].
+        rewrite <- (trel_isdir _ _ _ (n :: d) (Sim3_trel _ _ _ HS)). rewrite isdir_view by discriminate.
+        symmetry. exact Evd.
+      - right.
+        assert (Hdead: dead w (n :: d) = true).
+        { unfold vdir in Evd. rewrite Ei in Evd. cbn [andb] in Evd. symmetry in Evd. apply negb_false_iff in Evd. exact Evd. }
+        pose proof (Sim4c_qrel _ _ _ _ _ HS4 Q) as HS4d.
+        destruct (qrel_facts _ _ _ HX Q) as (_ & Sa & _ & _).
+        destruct (room_sim st T W wd s n d wc rc HS4d) as (B1 & B2 & B3 & B4 & B5 & B6 & B7).
+        + intros y Hy. unfold inprog. rewrite (sv_new _ _ Sa). apply (c4_prog _ _ _ _ HC). exact Hy.
+        + intros y Hy. rewrite (sv_fs _ _ Sa). apply (c4_nodir _ _ _ _ HC). exact Hy.
+        + rewrite (sv_old _ _ Sa). exact Hbelow.
+        + rewrite (sv_fs _ _ Sa). exact Ei.
+        + rewrite (sv_dead _ _ Sa). exact Hdead.
+        + exact Hc.
+        + split; [exact B1|]. split; [exact B2|]. split; [exact B3|].
+          split; [rewrite B4; apply (sv_new _ _ Sa)|]. split; [rewrite B5; apply (sv_old _ _ Sa)|].
+          intros y Hy. rewrite (B7 y Hy). rewrite (sv_fs _ _ Sa). reflexivity. }
+    destruct H as [[wx [u2 [E4 H]]]|[e' [E4 Er]]].
+    + destruct (Hfirst _ _ E4) as [(K & _)|(_ & B2 & B3 & B4 & B5 & B6)]; [discriminate|].
+      apply (Hend wx B2 B4 B5 B6); [|exact H]. unfold isdir. rewrite B3. reflexivity.
+    + destruct (Hfirst _ _ E4) as [(K & Q & Kd)|(K & _)]; [|discriminate]. inversion K; subst e'. subst r.
+      destruct (qrel_same _ _ _ HX Q) as (F1 & F2 & F3 & _).
+      split; [unfold setup_fs; rewrite Kd; reflexivity|]. split; [apply (Sim4c_qrel _ _ _ _ _ HS4 Q)|].
+      split; [exact F2|]. split; [exact F3|]. intros y _. rewrite F1. reflexivity.
+  - apply bind_inv in H. destruct H as [[wx [u2 [E4 H]]]|[e' [E4 _]]]; [|discriminate].
+    inversion E4; subst wx u2. apply (Hend w HS4 eq_refl eq_refl); [intros y _; reflexivity|exact Ei|exact H].
+Qed.
+
+(* ------------------------------------------------------------------ the statement *)
+Theorem pre_ok : pre_statement.
+Proof.
+  intros st tg pend T W w s p wb r HS4 HC Hcond H. pose proof HS4 as [HP HL].
+  pose proof (s4_sim _ _ _ _ HP) as HS.
+  unfold bf_pre in H.
+  apply bind_inv in H. destruct H as [[wa [u [E H]]]|[e [E Er]]].
+  2:{ (* the target is claimed *)
+      subst r. unfold new_assert_no_file in E. apply bind_inv in E. unfold get in E.
+      destruct E as [[wx [w0 [E0 E]]]|[e' [E0 _]]]; [|discriminate]. inversion E0; subst wx w0.
+      destruct (cache_has_file (w_new w) p) eqn:Ec; inversion E; subst.
+      split; [left; unfold claim_check; rewrite (s3_claimsF _ _ _ HS), Ec; reflexivity|].
+      split; [exact HS4|]. split; [reflexivity|]. split; [intros y _; reflexivity|reflexivity]. }
+  assert (Hunclaimed: wa = w /\ cache_has_file (w_new w) p = false).
+  { unfold new_assert_no_file in E. apply bind_inv in E. unfold get in E.
+    destruct E as [[wx [w0 [E0 E]]]|[e' [E0 _]]]; [|discriminate]. inversion E0; subst wx w0.
+    destruct (cache_has_file (w_new w) p); inversion E; subst. auto. }
+  destruct Hunclaimed as [-> Hunc]. clear E.
+  apply bind_inv in H. destruct H as [[wa [icf [E1 H]]]|[e [E1 _]]]; [|discriminate].
+  unfold is_cache_file in E1. inversion E1; subst wa icf. clear E1.
+  apply bind_inv in H. destruct H as [[wa [u1 [E2 H]]]|[e [E2 Er]]].
+  2:{ (* the target is the cache file *)
+      subst r. destruct (path_eqb p (w_cachefile w)) eqn:Ecf; inversion E2; subst.
+      split; [left; unfold claim_check; rewrite (s3_claimsF _ _ _ HS), Hunc, (s3_cf _ _ _ HS), Ecf; reflexivity|].
+      split; [exact HS4|]. split; [reflexivity|]. split; [intros y _; reflexivity|reflexivity]. }
+  destruct (path_eqb p (w_cachefile w)) eqn:Ecf; [discriminate|]. inversion E2; subst wa u1. clear E2.
+  assert (Hcc: claim_check (k_claimedF s) (k_cachefile s) p = None).
+  { unfold claim_check. rewrite (s3_claimsF _ _ _ HS), Hunc, (s3_cf _ _ _ HS), Ecf. reflexivity. }
+  apply bind_inv in H. destruct H as [[wa [created [E3 H]]]|[e [E3 Er]]].
+  2:{ subst r. destruct (prepare_sim st tg pend T W w s p wb (inr e) HS4 HC Hcond Hunc E3) as (A1 & A2 & A3 & A4 & A5).
+      split; [right; split; [exact Hcc|exact A1]|]. split; [exact A2|]. split; [exact A3|]. split; [exact A5|exact A4]. }
+  pose proof (prepare_sim st tg pend T W w s p wa (inl created) HS4 HC Hcond Hunc E3) as Hp. cbv beta iota in Hp.
+  apply bind_inv in H. destruct H as [[wc [locked [E4 H]]]|[e [E4 _]]].
+  2:{ unfold m_bd_started in E4. destruct (bd_started (w_bd wa) p created); discriminate. }
+  inversion H; subst wb r. destruct (Hp wc locked E4) as (fs1 & A1 & A2 & A3 & A4 & A5).
+  split; [exact Hcc|]. exists fs1, created.
+  split; [exact A1|]. split; [exact A2|]. split; [exact A3|]. split; [exact A5|exact A4].
+Qed.
+
+Print Assumptions pre_ok.
